@@ -210,7 +210,15 @@ fn nested(kind: usize, d: usize) -> String {
     }
 }
 
+const DIGIT_FAMILIES: [[char; 3]; 5] = [['१', '२', '३'], ['٠', '١', '٢'], ['๑', '๒', '๓'], ['１', '２', '３'], ['𝟘', '𝟙', '𝟚']];
+
 fn digits(rng: &mut Rng) -> String {
+    if rng.chance(1, 3) {
+        // runs of non-ASCII digits (2-, 3- and 4-byte), alone or mixed with ASCII digits, 1..40 characters
+        let fam = *rng.pick(&DIGIT_FAMILIES);
+        let n = 1 + rng.usize(40);
+        return (0..n).map(|_| if rng.chance(1, 4) { char::from(b'0' + rng.below(10) as u8) } else { *rng.pick(&fam) }).collect();
+    }
     match rng.below(8) {
         0 => "2147483647".into(),
         1 => "2147483648".into(),
@@ -483,7 +491,7 @@ pub fn run(ctx: &Ctx) -> (Stats, Spec) {
     let parts = util::par_jobs(16, |job| cli_job(ctx, job, cli_iters));
     st.merge(crate::report::merge_all(parts));
     let spec = Spec {
-        rule: "byte strings from 11 families (large inputs up to ~60 KiB: huge comments, very long identifiers, long whitespace runs, thousands of lines; random bytes; invalid UTF-8 inside formulas; token soups incl. braces/quotes; curated Unicode incl. non-ASCII digits; digit runs around 2^31/2^63/2^64 and up to 40 digits; mutated formulas; unbalanced brackets/quotes; empty input; every nestable construct nested up to exactly 200; valid formulas), a quarter of them combined with a hostile ordering; CLI: the same families through --evaluate / file / stdin / missing file x random subsets of -t -v -m -r -c -f -b -g -d -p -o with valid and invalid values. distinct = input bytes (+ ordering / options); non-trivial = the input got past tokenisation (reached the parser or beyond).".into(),
+        rule: "byte strings from 11 families (large inputs up to ~60 KiB: huge comments, very long identifiers, long whitespace runs, thousands of lines; random bytes; invalid UTF-8 inside formulas; token soups incl. braces/quotes; curated Unicode incl. non-ASCII digits; digit runs around 2^31/2^63/2^64 and up to 40 digits, also of 2-/3-/4-byte non-ASCII digits mixed with ASCII ones; mutated formulas; unbalanced brackets/quotes; empty input; every nestable construct nested up to exactly 200; valid formulas), a quarter of them combined with a hostile ordering; CLI: the same families through --evaluate / file / stdin / missing file x random subsets of -t -v -m -r -c -f -b -g -d -p -o with valid and invalid values. distinct = input bytes (+ ordering / options); non-trivial = the input got past tokenisation (reached the parser or beyond).".into(),
         assumptions: vec![
             "'nesting depth <= 200' is read as depth of the syntax tree (a right-nested chain of n binary operators has depth n)".into(),
             "formulas are evaluated only when the reference finds their fixed points convergent and their size bounded (<= 10 names, lists <= 8, <= 300 nodes); exceeding the logical step budget is an inconclusive case".into(),
